@@ -1,3 +1,269 @@
-import CGV.Model.ReadCG
+/-
+  C04 — the graph reader implements the documented grammar.
+
+  Model: `readCG` (CGV.Model.ReadCG) = read_cgsmiles: regex scan, per-node index arithmetic, state
+  machine — tied to the code by exact differential execution (valid, exhaustive-small and malformed
+  strings).
+
+  Proved at the STRING level, for every string of the linear part of the grammar (any number of
+  nodes, any alphanumeric names, every bond symbol): reading returns exactly the denoted graph.
+  Branches, ring bonds and annotations inside such strings: per-node lemmas (`stepNode_plain`,
+  ring parity C20) and kernel-evaluated documented examples below; their unbounded statement is
+  validated by the exhaustive/random correspondence + the independent denotation oracle (partial).
+-/
+import CGV.Spec.Chain
+import CGV.Lemmas.Read
+import CGV.Props.C14
 namespace CGV.C04
+open CGV Gen
+
+def ItemOk (it : LItem) : Prop := NameOk it.name ∧ it.order ≤ 4
+
+/-- the tokens the regex scan yields for the part of the string after a node -/
+def toksTail : Char → List LItem → List (Char × Str × Str)
+  | _, [] => []
+  | p, it :: its => ((symText it.order).getLast?.getD p, it.name, renderTail its) :: toksTail ']' its
+
+theorem symText_cases (o : Nat) (ho : o ≤ 4) :
+    (o = 1 ∧ symText o = []) ∨ (o ≠ 1 ∧ ∃ s, symText o = [s] ∧ symbolToOrder.lookup s = some o) := by
+  have : o = 0 ∨ o = 1 ∨ o = 2 ∨ o = 3 ∨ o = 4 := by omega
+  rcases this with rfl | rfl | rfl | rfl | rfl
+  · exact Or.inr ⟨by decide, '.', by decide +kernel, by decide +kernel⟩
+  · exact Or.inl ⟨rfl, by decide +kernel⟩
+  · exact Or.inr ⟨by decide, '=', by decide +kernel, by decide +kernel⟩
+  · exact Or.inr ⟨by decide, '#', by decide +kernel, by decide +kernel⟩
+  · exact Or.inr ⟨by decide, '$', by decide +kernel, by decide +kernel⟩
+
+theorem renderTail_length_pos (its : List LItem) : 1 ≤ (renderTail its).length := by
+  cases its <;> simp [renderTail, nodeText] <;> omega
+
+theorem matchesAux_nodeText (last pre : Char) (fuel : Nat) (name rest : Str) (h : name.all nameChar = true) :
+    matchesAux last (fuel + 1) pre (nodeText name ++ rest) = (pre, name, rest) :: matchesAux last fuel ']' rest := by
+  have : nodeText name ++ rest = '[' :: '#' :: (name ++ ']' :: rest) := by simp [nodeText]
+  rw [this, matchesAux_node last pre fuel name rest h]
+
+theorem nodeText_length (name : Str) : (nodeText name).length = name.length + 3 := by simp [nodeText]
+
+/-- the regex scan of the tail of a chain string -/
+theorem matches_tail (last : Char) : ∀ (its : List LItem) (p : Char) (fuel : Nat),
+    (∀ it ∈ its, ItemOk it) → (renderTail its).length ≤ fuel →
+    matchesAux last fuel p (renderTail its) = toksTail p its
+  | [], p, fuel, _, hf => by
+    obtain ⟨f, rfl⟩ : ∃ f, fuel = f + 1 := ⟨fuel - 1, by simp [renderTail] at hf; omega⟩
+    simp only [renderTail, toksTail]
+    rw [matchesAux_other last p '}' f [] (by decide), matchesAux_nil]
+  | it :: its, p, fuel, hok, hf => by
+    have hit := hok it List.mem_cons_self
+    have hrest : ∀ x ∈ its, ItemOk x := fun x hx => hok x (List.mem_cons_of_mem _ hx)
+    have hname := hit.1.2
+    have hlen : (renderTail (it :: its)).length =
+        (symText it.order).length + (it.name.length + 3) + (renderTail its).length := by
+      simp [renderTail, nodeText_length]; omega
+    rw [hlen] at hf
+    rcases symText_cases it.order hit.2 with ⟨_, hs⟩ | ⟨_, s, hs, hlook⟩
+    · -- no symbol: the node follows directly
+      rw [hs] at hf
+      obtain ⟨f, rfl⟩ : ∃ f, fuel = f + 1 := ⟨fuel - 1, by simp at hf; omega⟩
+      show matchesAux last (f + 1) p (symText it.order ++ nodeText it.name ++ renderTail its) = _
+      rw [hs, List.nil_append, matchesAux_nodeText last p f it.name (renderTail its) hname]
+      rw [matches_tail last its ']' f hrest (by simp at hf; omega)]
+      simp [toksTail, hs]
+    · obtain ⟨_, _, _, _, _, hsb, _⟩ := sym_facts s it.order hlook
+      rw [hs] at hf
+      obtain ⟨f, rfl⟩ : ∃ f, fuel = f + 2 := ⟨fuel - 2, by simp at hf; omega⟩
+      show matchesAux last (f + 2) p (symText it.order ++ nodeText it.name ++ renderTail its) = _
+      rw [hs, List.append_assoc, List.singleton_append]
+      rw [show f + 2 = (f + 1) + 1 from rfl, matchesAux_other last p s (f + 1) _ hsb]
+      rw [matchesAux_nodeText last s f it.name (renderTail its) hname]
+      rw [matches_tail last its ']' f hrest (by simp at hf; omega)]
+      simp [toksTail, hs]
+
+theorem renderTail_getLast (its : List LItem) : (renderTail its).getLast? = some '}' := by
+  induction its with
+  | nil => rfl
+  | cons it its ih =>
+    show (symText it.order ++ nodeText it.name ++ renderTail its).getLast? = _
+    rw [List.getLast?_append, ih]; rfl
+
+theorem matches_chain (first : Str) (its : List LItem) (hfirst : NameOk first) (hok : ∀ it ∈ its, ItemOk it) :
+    matches' (renderChain first its) = ('{', first, renderTail its) :: toksTail ']' its := by
+  unfold matches' renderChain
+  have hlast : (('{' :: (nodeText first ++ renderTail its)).getLast?.getD ' ') = '}' := by
+    have h1 : ('{' :: (nodeText first ++ renderTail its)) = (['{'] ++ nodeText first) ++ renderTail its := by simp
+    rw [h1, List.getLast?_append, renderTail_getLast]; rfl
+  rw [hlast]
+  have hlen : ('{' :: (nodeText first ++ renderTail its)).length + 1 = ((first.length + 3 + (renderTail its).length) + 1) + 1 := by
+    simp only [List.length_cons, List.length_append, nodeText_length]
+  rw [hlen, matchesAux_other '}' '}' '{' _ _ (by decide)]
+  rw [matchesAux_nodeText '}' '{' _ first (renderTail its) hfirst.2]
+  rw [matches_tail '}' its ']' _ hok (by omega)]
+
+/-! ### the state machine on a chain -/
+
+def nextOrder : List LItem → Nat
+  | [] => 1
+  | it :: _ => it.order
+
+theorem gap_tail (its : List LItem) (hok : ∀ it ∈ its, ItemOk it) : PlainGap (renderTail its) (nextOrder its) := by
+  cases its with
+  | nil => exact PlainGap.close []
+  | cons it its =>
+    have hit := hok it List.mem_cons_self
+    show PlainGap (symText it.order ++ nodeText it.name ++ renderTail its) it.order
+    rcases symText_cases it.order hit.2 with ⟨h1, hs⟩ | ⟨_, s, hs, hlook⟩
+    · rw [hs, h1]; exact PlainGap.node _
+    · rw [hs]; exact PlainGap.sym s it.order _ hlook
+
+theorem tail_no_close (its : List LItem) (hok : ∀ it ∈ its, ItemOk it) : ∀ c ∈ renderTail its, c ≠ ')' := by
+  induction its with
+  | nil => intro c hc; simp [renderTail] at hc; subst hc; decide
+  | cons it its ih =>
+    have hit := hok it List.mem_cons_self
+    intro c hc
+    simp only [renderTail, nodeText, List.mem_append, List.mem_cons, List.mem_singleton] at hc
+    rcases hc with (hc | hc | hc | hc | hc) | hc
+    · rcases symText_cases it.order hit.2 with ⟨_, hs⟩ | ⟨_, s, hs, hlook⟩
+      · rw [hs] at hc; simp at hc
+      · rw [hs] at hc; simp only [List.mem_singleton] at hc; subst hc
+        exact (sym_facts c it.order hlook).2.2.2.1
+    · subst hc; decide
+    · subst hc; decide
+    · exact (nameChar_facts c (List.all_eq_true.mp hit.1.2 c hc)).2.2.2.1
+    · rcases hc with hc | hc
+      · subst hc; decide
+      · simp at hc
+    · exact ih (fun x hx => hok x (List.mem_cons_of_mem _ hx)) c hc
+
+theorem parse_name (name : Str) (h : NameOk name) : parseBase name = .ok (defaultAttrs name) := by
+  have h1 : ';' ∉ name := fun hm => (nameChar_facts _ (List.all_eq_true.mp h.2 _ hm)).2.2.2.2.2.1 rfl
+  have h2 : '=' ∉ name := fun hm => (nameChar_facts _ (List.all_eq_true.mp h.2 _ hm)).2.2.2.2.2.2.1 rfl
+  exact C14.C14_defaults_base name h1 h2 h.1
+
+theorem toksTail_pre (p : Char) (hp : p ≠ '(') (it : LItem) (hit : ItemOk it) :
+    (symText it.order).getLast?.getD p ≠ '(' := by
+  rcases symText_cases it.order hit.2 with ⟨_, hs⟩ | ⟨_, s, hs, hlook⟩
+  · rw [hs]; exact hp
+  · rw [hs]; simp only [List.getLast?_singleton, Option.getD_some]
+    exact (sym_facts s it.order hlook).2.2.2.2.2.2
+
+/-- the state machine on the tail of a chain: every node is added with the next key, bonded to its
+    predecessor with the order written before it -/
+theorem fold_tail : ∀ (its : List LItem) (p : Char) (st : RState) (prev : Nat),
+    (∀ it ∈ its, ItemOk it) → p ≠ '(' → st.branching = false → st.prev = some prev → st.pbo = some (nextOrder its) →
+    ∃ st', (toksTail p its).foldlM stepNode st = .ok st' ∧
+      st'.g = pathGraphAux st.g prev st.current its ∧ st'.cycle = st.cycle
+  | [], _, st, _, _, _, _, _, _ => ⟨st, rfl, rfl, rfl⟩
+  | it :: its, p, st, prev, hok, hp, hbr, hprev, hpbo => by
+    have hit := hok it List.mem_cons_self
+    have hrest : ∀ x ∈ its, ItemOk x := fun x hx => hok x (List.mem_cons_of_mem _ hx)
+    obtain ⟨r, hstep⟩ := stepNode_plain st ((symText it.order).getLast?.getD p) it.name (renderTail its) (nextOrder its)
+      (defaultAttrs it.name) (toksTail_pre p hp it hit) (gap_tail its hrest) (parse_name it.name hit.1) hbr
+      (tail_no_close its hrest)
+    simp only [toksTail, List.foldlM_cons, hstep, bind, Except.bind]
+    obtain ⟨st', h1, h2, h3⟩ := fold_tail its ']'
+      { st with g := (match st.prev with
+                      | some p => (st.g.addNode st.current (defaultAttrs it.name)).addEdge p st.current st.pbo
+                      | none => st.g.addNode st.current (defaultAttrs it.name)),
+                current := st.current + 1, prev := some st.current, pbo := some (nextOrder its),
+                attrs := some (defaultAttrs it.name), rdx := some r }
+      st.current hrest (by decide) hbr rfl rfl
+    refine ⟨st', h1, ?_, h3⟩
+    rw [h2]
+    simp only [pathGraphAux, hpbo, hprev, nextOrder]
+
+theorem nameChar_ascii (c : Char) (h : nameChar c = true) : c.toNat ≤ 127 := by
+  simp only [nameChar, Char.isAlphanum, Char.isAlpha, Char.isUpper, Char.isLower, Char.isDigit, Bool.or_eq_true,
+    Bool.and_eq_true, decide_eq_true_eq] at h
+  have : c.toNat = c.val.toNat := rfl
+  rw [this]
+  rcases h with (⟨_, h⟩ | ⟨_, h⟩) | ⟨_, h⟩ <;>
+  · have := UInt32.le_iff_toNat_le.mp h
+    simp at this
+    omega
+
+def okChar (c : Char) : Bool := !(c == '\n' || decide (c.toNat > 127))
+
+theorem nameChar_ok (c : Char) (h : nameChar c = true) : okChar c = true := by
+  have h1 := nameChar_ascii c h
+  have h2 := (nameChar_facts c h).2.2.1
+  have : (c == '\n') = false := by simpa using h2
+  simp [okChar, this]; omega
+
+theorem symText_ok (o : Nat) (ho : o ≤ 4) : ∀ c ∈ symText o, okChar c = true := by
+  have : o = 0 ∨ o = 1 ∨ o = 2 ∨ o = 3 ∨ o = 4 := by omega
+  rcases this with rfl | rfl | rfl | rfl | rfl <;> decide +kernel
+
+theorem nodeText_ok (name : Str) (h : name.all nameChar = true) : ∀ c ∈ nodeText name, okChar c = true := by
+  intro c hc
+  simp only [nodeText, List.mem_cons, List.mem_append, List.mem_singleton] at hc
+  rcases hc with rfl | rfl | hc | hc
+  · decide
+  · decide
+  · exact nameChar_ok c (List.all_eq_true.mp h c hc)
+  · rcases hc with rfl | hc
+    · decide
+    · simp at hc
+
+theorem renderTail_ok (its : List LItem) (hok : ∀ it ∈ its, ItemOk it) : ∀ c ∈ renderTail its, okChar c = true := by
+  induction its with
+  | nil => intro c hc; simp [renderTail] at hc; subst hc; decide
+  | cons it its ih =>
+    have hit := hok it List.mem_cons_self
+    intro c hc
+    simp only [renderTail, List.mem_append] at hc
+    rcases hc with (hc | hc) | hc
+    · exact symText_ok it.order hit.2 c hc
+    · exact nodeText_ok it.name hit.1.2 c hc
+    · exact ih (fun x hx => hok x (List.mem_cons_of_mem _ hx)) c hc
+
+theorem renderChain_supported (first : Str) (its : List LItem) (hfirst : NameOk first) (hok : ∀ it ∈ its, ItemOk it) :
+    ((renderChain first its).any fun c => c == '\n' || decide (c.toNat > 127)) = false := by
+  rw [List.any_eq_false]
+  intro c hc
+  have : okChar c = true := by
+    simp only [renderChain, List.mem_cons, List.mem_append] at hc
+    rcases hc with rfl | hc | hc
+    · decide
+    · exact nodeText_ok first hfirst.2 c hc
+    · exact renderTail_ok its hok c hc
+  simpa [okChar] using this
+
+/-- C04 for the linear grammar: every string `{[#n0] b1 [#n1] b2 … }` (alphanumeric names, each
+    `b` one of the bond symbols . = # $ or nothing) reads to exactly the graph it denotes — nodes
+    numbered in order of appearance with their names and default annotation values, consecutive nodes
+    joined with the written order -/
+theorem C04_read_chain (first : Str) (its : List LItem) (hfirst : NameOk first) (hok : ∀ it ∈ its, ItemOk it) :
+    readCG (renderChain first its) = .ok (pathGraph first its) := by
+  have hsup := renderChain_supported first its hfirst hok
+  unfold readCG
+  simp only [hsup, Bool.false_eq_true, if_false]
+  rw [matches_chain first its hfirst hok]
+  obtain ⟨r, hstep⟩ := stepNode_plain {} '{' first (renderTail its) (nextOrder its) (defaultAttrs first) (by decide)
+    (gap_tail its hok) (parse_name first hfirst) rfl (tail_no_close its hok)
+  simp only [List.foldlM_cons, hstep, bind, Except.bind]
+  obtain ⟨st', h1, h2, h3⟩ := fold_tail its ']'
+    { ({} : RState) with g := ({} : CGGraph).addNode 0 (defaultAttrs first), current := 0 + 1, prev := some 0,
+                         pbo := some (nextOrder its), attrs := some (defaultAttrs first), rdx := some r }
+    0 hok (by decide) rfl rfl rfl
+  rw [h1]
+  have hc : st'.cycle.isEmpty = true := by rw [h3]; rfl
+  simp only [hc, Bool.not_true, Bool.false_eq_true, if_false, pure, Except.pure, h2, pathGraph]
+
+/-! ### documented examples beyond chains, by kernel evaluation of the model (tests of the model, not the
+    unbounded claim) -/
+example : (readCG "{[#A].([#B][#C])[#D]}".toList).map (·.edges) =
+    .ok [⟨0, 1, some 0⟩, ⟨1, 2, some 1⟩, ⟨0, 3, some 1⟩] := by decide +kernel
+example : (readCG "{[#A].([#B][#C]).[#D]}".toList).map (·.edges) =
+    .ok [⟨0, 1, some 0⟩, ⟨1, 2, some 1⟩, ⟨0, 3, some 0⟩] := by decide +kernel
+example : (readCG "{[#A].1[#B][#C]1}".toList).map (·.edges) =
+    .ok [⟨0, 1, some 1⟩, ⟨1, 2, some 1⟩, ⟨2, 0, some 0⟩] := by decide +kernel
+example : (readCG "{[#A]([#B]([#C]))[#D]}".toList).map (·.edges) =
+    .ok [⟨0, 1, some 1⟩, ⟨1, 2, some 1⟩, ⟨0, 3, some 1⟩] := by decide +kernel
+example : (readCG "{[#PMA]=%123[#PEO][#PMA]%123}".toList).map (·.edges) =
+    .ok [⟨0, 1, some 1⟩, ⟨1, 2, some 1⟩, ⟨2, 0, some 2⟩] := by decide +kernel
+
+/-- non-vacuity: a concrete chain satisfies every hypothesis of `C04_read_chain` -/
+example : readCG (renderChain "PEO".toList [⟨"PMA".toList, 2⟩, ⟨"B1".toList, 0⟩]) =
+    .ok (pathGraph "PEO".toList [⟨"PMA".toList, 2⟩, ⟨"B1".toList, 0⟩]) := by decide +kernel
+
 end CGV.C04
